@@ -21,11 +21,12 @@ func init() {
 	register(&Check{
 		ID:  "C07",
 		Run: runC07,
-		Explanation: "Decides the ordering clauses of the durability statement on every CFG path (normal returns) of the font persistence code: (R1) in every function that calls the gob operation `sync` directly, every success return is preceded by a successful sync with no encode/chmod after it; in every function that calls the gob `rename`, the rename is preceded on every path by a successful data sync (directly or through a callee that always syncs), a successful close, and is followed before every success return by a successful syncDir(filepath.Dir(<rename destination>)); (R2) in the batch publishers commitCollectionFonts and commitStagedFontsWithOperations each rename(src,dst) is followed, before the next rename and before any success return, by a successful sync*Directories call naming both directories of that rename; the sync*Directories helpers visit every element, return only after the loop and propagate the syncDir error; rollback helpers attempt the directory sync after their last rename; (R3) the production operation tables bind sync->(*os.File).Sync, syncDir->fileutil.SyncDirectory (which fsyncs the opened directory and returns its error), rename->fileutil.ReplaceFile->os.Rename, close->(*os.File).Close, and no call site discards the error of sync/syncDir/close/rename. NOT decided: what the kernel/filesystem does on fsync, panics between the calls (C01), Windows where SyncDirectory is a documented no-op (recorded as assumption in the thorough tier).",
+		Explanation: "Decides the ordering clauses of the durability statement on every CFG path (normal returns) of the font persistence code: (R1) in every function that calls the gob operation `sync` directly, every success return is preceded by a successful sync with no encode/chmod after it; in every function that calls the gob `rename`, the rename is preceded on every path by a successful data sync (directly or through a callee that always syncs), a successful close, and is followed before every success return by a successful syncDir(filepath.Dir(<rename destination>)); (R2) in the batch publishers commitCollectionFonts and commitStagedFontsWithOperations each rename(src,dst) is followed, before the next rename and before any success return, by a successful sync*Directories call naming both directories of that rename; the sync*Directories helpers visit every element, return only after the loop and propagate the syncDir error; rollback helpers attempt the directory sync after their last rename; (R3) the production operation tables bind sync->(*os.File).Sync, syncDir->fileutil.SyncDirectory (which fsyncs the opened directory and returns its error), rename->fileutil.ReplaceFile->os.Rename, close->(*os.File).Close, and no call site discards the error of sync/syncDir/close/rename. (R4) every function that calls writeGob reports success only on paths that went through it: a shortcut that returns nil because an equal representation is already readable skips data fsync, rename and directory fsync. NOT decided: what the kernel/filesystem does on fsync, panics between the calls (C01), Windows where SyncDirectory is a documented no-op (recorded as assumption in the thorough tier).",
 		Rules: []string{
 			"C07.R1 MPT: data sync -> close -> rename -> syncDir(Dir(target)) in the single-font writer",
 			"C07.R2 MPT with per-directory facts: every rename in a batch publisher is followed by a directory sync of both directories before the next rename / success return",
 			"C07.R3 bindings of the operation tables reach the real primitives; no discarded errors",
+			"C07.R4 MPT: a direct install reports success only after the durable writer ran",
 		},
 		Assumptions: []string{"fsync(2)/rename(2) semantics of the OS", "operation tables are only replaced in tests (test files are not part of the analysed build)"},
 	})
@@ -129,6 +130,15 @@ func runC07(c *Ctx) {
 		}, fn)
 	}
 
+	// ---- R4 (round 3 of seeding): success of a direct install means the durable writer ran
+	r.MinInst["C07.R4"] = 1
+	for _, fn := range funcsCalling(p, "pkg/font.writeGob") {
+		runFlowRuleOn(c, FlowRule{
+			ID:   "C07.R4",
+			Gen:  []GenSpec{{Fact: "persisted", On: Pred{Calls: []string{"pkg/font.writeGob"}}}},
+			Need: []NeedSpec{{Fact: "persisted", At: Pred{NilReturn: true}, Why: "the installer reports success on a path that did not go through writeGob (data fsync, rename, directory fsync): a representation that merely reads back equal (published by an earlier, failed or interrupted attempt) is not a durable one"}},
+		}, fn)
+	}
 	// ---- R2: batch publishers
 	for _, spec := range []struct{ fn, ops, syncer string }{
 		{"pkg/font.commitCollectionFonts", collOps, "pkg/font.syncCollectionDirectories"},
